@@ -1533,7 +1533,27 @@ impl World {
         let bytes = ser(&self.usks[ui].key).map_err(Abort::Violation)?;
         let Ok(mut wu) = WUsk::decode(&bytes) else { return Ok(()) };
         let what;
-        match kind % 5 {
+        match kind % 7 {
+            5 => {
+                // strip the signature
+                wu.signature = None;
+                what = "strip-signature";
+            }
+            6 => {
+                // strip the signature and take the rights of another key
+                if self.usks.len() < 2 {
+                    return Ok(());
+                }
+                let oj = (ui + 1) % self.usks.len();
+                let ob = ser(&self.usks[oj].key).map_err(Abort::Violation)?;
+                let Ok(wo) = WUsk::decode(&ob) else { return Ok(()) };
+                if wo.rights == wu.rights {
+                    return Ok(());
+                }
+                wu.rights = wo.rights;
+                wu.signature = None;
+                what = "unsigned-with-rights-of-other-key";
+            }
             0 => {
                 // drop a right
                 if wu.rights.len() < 2 {
